@@ -135,13 +135,13 @@ Qed.
 
 (** ** The erasure is not vacuous: a run in which a worker raises and its end callback raises *)
 Definition ni_cfg : config :=
-  {| cf_size := Fin 2; cf_kind := KTask; cf_bad := false; cf_w := default_w;
+  {| cf_size := Fin 2; cf_kind := KTask; cf_bad := []; cf_w := default_w;
      cf_ecb := CbNone; cf_ccb := CbNone |}.
 
 Definition w_raise : wspec := {| w_first := WRaise; w_cancel := WPropagate |}.
 
 Definition ni_tr : list label :=
-  [ LOp (OpApply 1 false false w_raise (CbSync true) CbNone None);
+  [ LOp (OpApply 1 [] false w_raise (CbSync true) CbNone None);
     LRun (HT (TM 0)); LRun (HT (TP 0)); LGo; LGo ].
 
 Example erasure_not_vacuous :
@@ -167,7 +167,7 @@ Qed.
 (** a worker cancels itself at its first line and then raises: it ends with its exception; had
     it returned it would have ended cancelled (D11) *)
 Definition nt_tr : list label :=
-  [ LOp (OpApply 1 false false w_raise CbNone CbNone None);
+  [ LOp (OpApply 1 [] false w_raise CbNone CbNone None);
     LRun (HT (TM 0)); LRun (HT (TP 0)); LOp (OpCancel [0]); LGo ].
 
 Theorem taint_self_dependence :
@@ -187,7 +187,7 @@ Qed.
 (** flush(return_exceptions=False) raises the failed task's exception and forgets nothing; the
     same flush over a run without failures forgets the ended task *)
 Definition nf_tr : list label :=
-  [ LOp (OpApply 1 false false w_raise CbNone CbNone None);
+  [ LOp (OpApply 1 [] false w_raise CbNone CbNone None);
     LRun (HT (TM 0)); LRun (HT (TP 0)); LGo;
     LOp (OpDriver (DFlush false)); LRun (HT (TD 0)) ].
 
